@@ -238,10 +238,10 @@ def shard(cases, size):
     return [cases[i:i + size] for i in range(0, len(cases), size)]
 
 
-def obligations_file(imports, case_type, case_terms, checks):
+def obligations_file(imports, case_type, case_terms, checks, preamble=''):
     """A generated file: `cases`, then for each (name, fn) in checks the list of failing indices
     is computed by vm_compute, printed, and asserted empty with a kernel-checked Example."""
-    txt = [CASE_HEADER, imports, 'Open Scope N_scope.\n',
+    txt = [CASE_HEADER, imports, 'Open Scope N_scope.\n', preamble,
            'Definition cases : list %s :=\n  [ %s ].\n' % (case_type, '\n  ; '.join(case_terms))]
     for chk in checks:
         name, fn = chk[0], chk[1]
@@ -254,11 +254,11 @@ def obligations_file(imports, case_type, case_terms, checks):
     return ''.join(txt)
 
 
-def run_sharded(run, prefix, imports, case_type, terms, checks, size=300):
+def run_sharded(run, prefix, imports, case_type, terms, checks, size=300, preamble=''):
     """Compile shards; return dict check-name -> sorted global failing indices, plus broken files."""
     groups = shard(terms, size)
     for k, g in enumerate(groups):
-        run.add('%s_%d' % (prefix, k), obligations_file(imports, case_type, g, checks))
+        run.add('%s_%d' % (prefix, k), obligations_file(imports, case_type, g, checks, preamble))
     res = run.compile_all()
     failing = dict((chk[0], []) for chk in checks)
     broken = []
@@ -316,6 +316,12 @@ class Decision(object):
         self.assumptions = []
         self.findings = [f for f in load_known_findings() if f['property'] == prop]
         self.matchers = {}
+        import glob
+        for f in glob.glob(os.path.join(REPLAYS, '%s-*.json' % prop)):
+            try:
+                os.remove(f)
+            except OSError:
+                pass
 
     def obligations(self, total, ok):
         self.coverage['obligations'] += total
